@@ -110,6 +110,10 @@ def build_group(G, bdir, log):
     for r in G['roots']:
         if isinstance(r, str):
             r = {'name': r}
+        if 'lambda_in' in r:
+            got = u.add_lambda_root(r['lambda_in'], r['file'], r['line'])
+            names[r.get('as', 'lambda@%s:%s' % (r['file'], r['line']))] = got
+            continue
         got = u.add_root(r['name'], sig=r.get('sig'), targs=r.get('targs'))
         names[r.get('as', r['name'])] = got
     u.run()
